@@ -60,12 +60,13 @@ Proof. exact LimitsProofs.buildmem_all_entries. Qed.
 Print Assumptions buildmem_all_entries.
 
 (* with no limit configured and a clock that never expires the limit machinery is inert *)
-Theorem no_limit_agrees : forall pick interval ps s, 0 < interval ->
+Theorem no_limit_agrees : forall pick interval ps s,
+  Forall good ps -> scoped ps (length s) -> wf_store s -> 0 < interval ->
   (forall t, fst (solve_lim pick interval never None false false ps s) = OOk t <-> solve pick ps s = Some (Some t)) /\
   (fst (solve_lim pick interval never None false false ps s) = ONoSolution <-> solve pick ps s = Some None) /\
   (forall sols ck, enumerate_lim pick interval never None false ps s = Some (sols, ck) ->
      exists b, enumerate pick ps s = SOk sols b).
-Proof. exact LimitsProofs.no_limit_agrees. Qed.
+Proof. exact (LimitsProofs.no_limit_agrees BasicProofs.mk_leq_good BasicProofs.mk_gt_good BasicProofs.mk_lt_good). Qed.
 Print Assumptions no_limit_agrees.
 
 Example c15_nonvacuous :
